@@ -60,6 +60,10 @@ add("C17", "model_checking",
     "The exploration spaces of C01 (E1/E2, entry chains) and C10 (capacity arguments incl. usize/isize windows) are executed by two binaries that differ exactly in debug-assertions and overflow-checks; per-execution outcome digests (returned values, panics, len, capacity, sorted contents) are compared chunk by chunk and the first differing history is reported; an AddressSanitizer build runs the E2 and chain spaces.",
     TB, "bounded exhaustive exploration of the implementation under two build profiles with transcript comparison", "DESIGN.md section 5 C17, engine E6")
 
+add("C07", "fault_enumeration",
+    "For every state of the family and every op of the alphabet the invocations of each user callback kind (Hash, Eq, Clone of key/value/hasher, closures) are counted in a fault-free run, then a panic is injected at each individual invocation; after the caught panic: len()==iterated entries, every element live (canary+ledger), found by get, value legitimate, no duplicates, no double drop, losses within the documented allowance, move cursor agrees with the old table; then a tour of calls and the growth path across the next resize under full audits. Run by the chk and the AddressSanitizer binaries.",
+    TB + " Leaks after a panic are not judged (the statement does not promise their absence).", "exhaustive fault enumeration: all crash points of all user callbacks of all ops over a family of reachable states, on the implementation", "DESIGN.md section 5 C07, engine E4")
+
 import os
 claimed = sorted(CHECKS)
 ALL = [f"C{i:02d}" for i in range(1, 18)]
